@@ -14,7 +14,8 @@ PROPS = {
 
 PROPS["C17"] = {
   "engine": "sim_persist", "variant": "asan", "level": "fault_enumeration",
-  "parts": [{"args": ["--mode", "c17"]}],
+  # second part: the same crash points seen through the command line (`yarac` output cut at byte n, then `yara -C`)
+  "parts": [{"args": ["--mode", "c17"]}, {"engine": "sim_cli", "variant": "cov", "args": ["--mode", "c17cli", "--runs", "48"], "budget_quick": 25, "budget_thorough": 200}],
   "budget_quick": 90, "budget_thorough": 600,
   "exhaustive_thorough": False,
   "rule": "one case = (compiled rule file F produced by the library from a generated rule set, fault): the writer crashes after n bytes (a prefix of F is loaded) for every n when |F| <= 6000 (quick) / 16384 (thorough) and for every header/table byte, every section boundary +-8, every relocation-entry boundary and a seeded interior sample otherwise; or one header / buffer-table / relocation-entry field is corrupted (magic, version, num_buffers, each offset and size at 0, +-1, +-8, +16, next size, 2^31-1, 2^32-1); or yr_rules_save(path) runs onto a simulated disk that fills at byte n and yr_rules_load(path) follows. Oracle: load fails and leaves *rules untouched, or (corruptions only) the loaded rules scan a buffer corpus identically. Non-trivial = every case injects a fault; distinct = distinct (rule file, cut point | field,value).",
